@@ -1,7 +1,7 @@
 """C20: results do not depend on the build profile; overflow is never silent.
 
 R-PROFILE  every profile-dependent check site (overflow assert, inherit-overflow core call, debug_assert) reached by the
-           cells of C01-C11, C14-C16 must have an infeasible failure edge in every cell; a feasible one means
+           cells of C01-C16 must have an infeasible failure edge in every cell; a feasible one means
            "panics in dev, continues with a wrapped value in release".  Sites never reached by those cells must be in the
            audited table below (functions whose properties are not decided by this machinery).
 R-CONFIG-DIFF  the MIR of every function is identical between the default and the `packed` configuration.
@@ -13,14 +13,12 @@ from ..harness import get_db, map_jobs, SCALES_ALL, SCALES_QUICK
 from ..db import INT_TYPES9, span_str, DB
 from ..rules import profile
 from .. import mir
-from . import c01, c02, c03, c04, c05, c06, c07, c08, c09, c10, c11, c14, c15, c16
+from . import c01, c02, c03, c04, c05, c06, c07, c08, c09, c10, c11, c12, c13, c14, c15, c16
 
-MODS = {'c01': c01, 'c02': c02, 'c03': c03, 'c04': c04, 'c05': c05, 'c06': c06, 'c07': c07, 'c08': c08, 'c09': c09, 'c10': c10, 'c11': c11, 'c14': c14, 'c15': c15, 'c16': c16}
+MODS = {'c01': c01, 'c02': c02, 'c03': c03, 'c04': c04, 'c05': c05, 'c06': c06, 'c07': c07, 'c08': c08, 'c09': c09, 'c10': c10, 'c11': c11, 'c12': c12, 'c13': c13, 'c14': c14, 'c15': c15, 'c16': c16}
 
 # functions whose profile-dependent sites are NOT decided here (one line of reason each)
 AUDITED_PREFIXES = [
-    ('fpdec::from_float', 'f32/f64 -> Decimal (C13, not applicable to static analysis)'),
-    ('fpdec::into_float', 'Decimal -> f32/f64 (C12, not applicable to static analysis)'),
     ('fpdec::{impl#0}::new_raw', 'debug_assert on the documented precondition n_frac_digits <= 18 of the doc(hidden) constructor'),
     ('fpdec::num_traits', 'feature num-traits: forwarders checked in C15 thorough'),
     ('fpdec_core::powers_of_ten::mul_pow_ten', 'doc(hidden) unchecked helper, no longer called by non-test code of fpdec (tests only)'),
@@ -168,6 +166,9 @@ def job_list(tier):
             jobs.append(('c11', (p, P)))
         for xc in ('neg', 'zero', 'pos'):
             jobs.append(('c07', (p, xc)))
+    # float conversions (C12, C13): the boundary cells in both tiers (the full cell sets are run by the properties' own thorough checks)
+    jobs += [('c12', j) for j in c12.job_list('quick')]
+    jobs += [('c13', j) for j in c13.job_list('quick')]
     for j in (('helper', 'skip_leading_zeroes'), ('helper', 'accum_coeff'), ('helper', 'accum_exp'), ('root', 'str_to_dec'), ('root', 'from_str')):
         jobs.append(('c06', j))
     return jobs
